@@ -8,5 +8,10 @@ CONSTANTS
   AllowRev = FALSE
   MinArgs = 1
   NFm = 3
+  NPf = 3
+  FrLen = FALSE
+  CLines = 3
+  MaxSites = 3
+  CKinds = {"comma", "type", "undef"}
   Family = "usage"
 CHECK_DEADLOCK FALSE
